@@ -22,6 +22,8 @@ pub enum PlanKind {
     Short(u64),
     Err(i32),
     Crash,
+    /// read() returns 0 early: the file was cut short after it was opened.
+    Eof,
 }
 
 #[derive(Clone, Debug, PartialEq, Serialize, Deserialize)]
@@ -213,6 +215,7 @@ fn render_plan(plan: &[PlanEntry]) -> String {
             PlanKind::Short(n) => s.push_str(&format!("{} short {}\n", e.idx, n)),
             PlanKind::Err(errno) => s.push_str(&format!("{} err {}\n", e.idx, errno)),
             PlanKind::Crash => s.push_str(&format!("{} crash\n", e.idx)),
+            PlanKind::Eof => s.push_str(&format!("{} eof\n", e.idx)),
         }
     }
     s
@@ -441,7 +444,24 @@ pub fn outcome_digest(fp: &mut Fnv, o: &Outcome) {
     fp.bytes(&o.stdout).bytes(&[0]);
     fp.bytes(&o.stderr).bytes(&[0]);
     for t in &o.trace {
-        fp.u64(t.idx).str(&t.call).str(&t.path).u64(t.req as u64).u64(t.res as u64).u64(t.errno as u64).str(&t.fault);
+        // digit runs in a path are not decided by the simulator (a temporary file may carry the process id)
+        let mut path = String::with_capacity(t.path.len());
+        let mut in_digits = false;
+        for c in t.path.chars() {
+            if c.is_ascii_digit() {
+                if !in_digits {
+                    path.push('#');
+                }
+                in_digits = true;
+            } else {
+                in_digits = false;
+                path.push(c);
+            }
+        }
+        // the descriptor number and open flags (`req` of an open) are left out for the same reason: they
+        // describe how the process does its I/O, not what it does
+        let req = if t.call == "open" || t.call == "openat" { 0 } else { t.req as u64 };
+        fp.u64(t.idx).str(&t.call).str(&path).u64(req).u64(t.res.max(-1) as u64 * (t.call != "open" && t.call != "openat") as u64).u64(t.errno as u64).str(&t.fault);
     }
 }
 
